@@ -3,7 +3,10 @@ package main
 import (
 	"fmt"
 	"math/rand"
+	"sync/atomic"
 	"time"
+
+	"github.com/enfein/mieru/v3/pkg/protocol"
 )
 
 // C02: UDP transport — reliable, ordered, exactly-once under fair fault plans.
@@ -66,6 +69,9 @@ func c02Case(c *Ctx) *Result {
 	if c.Idx%10 == 7 {
 		fam = "slow" // long quiet periods and slow one-way transfers on a healthy network
 	}
+	if c.Idx%10 == 3 {
+		fam = "eager" // the server application writes a lot the moment Accept returns
+	}
 	nsess := pick(r, 1, 1, 1, 2, 3, 4)
 	mtuC, mtuS := pick(r, mtuSet...), pick(r, mtuSet...)
 	patC := genPattern(r, r.Intn(4) == 0)
@@ -106,6 +112,10 @@ func c02Case(c *Ctx) *Result {
 		if fam == "window" {
 			p.ReadPause[0] = &Pause{AfterBytes: 1 << 20, Dur: time.Duration(1+r.Intn(9)) * time.Second}
 			p.R[0] = []int{65536}
+		}
+		if fam == "eager" {
+			p.W[1] = []int{30000 + r.Intn(60000), 1 + r.Intn(3000)}
+			p.W[0] = []int{pick(r, 0, 1, 100, 1024), 1 + r.Intn(20000)}
 		}
 		if fam == "slow" {
 			oneWay := r.Intn(2)
@@ -163,6 +173,19 @@ func c02Case(c *Ctx) *Result {
 		fp.MaxDelayMs = pick(r, 5, 50, 300)
 	}
 	env.Net.SetPlan(fp.Decide)
+	if fam == "eager" {
+		// Hold the session's input loop before it processes its first segments
+		// (the open request), the moment at which a server application that
+		// has already been handed the session may start writing.
+		var n atomic.Int32
+		k := int32(nsess)
+		protocol.VerifSetPoint(protocol.VerifPointInputBeforeProcess, func() {
+			if n.Add(1) <= k {
+				time.Sleep(time.Duration(2+r.Intn(5)) * time.Millisecond)
+			}
+		})
+		defer protocol.VerifSetPoint(protocol.VerifPointInputBeforeProcess, nil)
+	}
 	params := map[string]interface{}{
 		"family": fam, "nsess": nsess, "mtu_c": mtuC, "mtu_s": mtuS, "latency_ms": lat.Milliseconds(),
 		"pat_c": patString(patC), "pat_s": patString(patS), "rules": fp.ruleStrings(),
@@ -201,7 +224,7 @@ func c02Case(c *Ctx) *Result {
 	res.Obs["sessions"] = float64(nsess)
 	faultsHit := res.Obs["datagrams_dropped"] + res.Obs["datagrams_duplicated"] + res.Obs["datagrams_delayed"]
 	res.Shape = shapeHash(fam, nsess, mtuC, mtuS, patClass(env.PatCE), patClass(env.PatSE), fp.hitClass(), faultsHit > 0)
-	res.Trivial = total == 0 || (fam != "window" && fam != "slow" && faultsHit == 0)
+	res.Trivial = total == 0 || (fam != "window" && fam != "slow" && fam != "eager" && faultsHit == 0)
 	if timedOut && !isVirtual {
 		res.Verdict, res.Detail = Inconclusive, "real-time watchdog fired"
 		return res
